@@ -4,6 +4,7 @@ import (
 	"bytes"
 	"encoding/json"
 	"fmt"
+	"io"
 	"sort"
 	"sync/atomic"
 
@@ -19,6 +20,17 @@ import (
 // share the generator of index states: sorted sequences of records added with real Add calls.
 
 func init() {
+	isoHandlers["c15"] = func(c *Ctx, raw json.RawMessage) {
+		var cas c04case
+		if err := json.Unmarshal(raw, &cas); err != nil {
+			c.Infra = err.Error()
+			return
+		}
+		var e, n int64
+		c04run(c, cas, true, &e, &n)
+		c.Eval(e)
+		c.NontrivialN(n)
+	}
 	register("C04", "index", func(c *Ctx) { c04(c, false) })
 	register("C15", "idxrt", func(c *Ctx) { c04(c, true) })
 }
@@ -47,6 +59,7 @@ type idx interface {
 	merge(s index.MergeStrategy)
 	write() ([]byte, error)
 	read(b []byte) (idx, error)
+	readFrom(r io.Reader) (idx, error)
 	numRefs() int
 	refStats(id int) (index.ReferenceStats, bool)
 	unmapped() (uint64, bool)
@@ -99,8 +112,9 @@ func (b baiIdx) write() ([]byte, error) {
 	err := bam.WriteIndex(&buf, b.x)
 	return buf.Bytes(), err
 }
-func (b baiIdx) read(d []byte) (idx, error) {
-	x, err := bam.ReadIndex(bytes.NewReader(d))
+func (b baiIdx) read(d []byte) (idx, error) { return b.readFrom(bytes.NewReader(d)) }
+func (b baiIdx) readFrom(r io.Reader) (idx, error) {
+	x, err := bam.ReadIndex(r)
 	if err != nil || x == nil {
 		return nil, fmt.Errorf("ReadIndex: %v (index %v)", err, x)
 	}
@@ -132,8 +146,9 @@ func (t tbxIdx) write() ([]byte, error) {
 	err := tabix.WriteTo(&buf, t.x)
 	return buf.Bytes(), err
 }
-func (t tbxIdx) read(d []byte) (idx, error) {
-	x, err := tabix.ReadFrom(bytes.NewReader(d))
+func (t tbxIdx) read(d []byte) (idx, error) { return t.readFrom(bytes.NewReader(d)) }
+func (t tbxIdx) readFrom(r io.Reader) (idx, error) {
+	x, err := tabix.ReadFrom(r)
 	if err != nil || x == nil {
 		return nil, fmt.Errorf("ReadFrom: %v (index %v)", err, x)
 	}
@@ -168,8 +183,9 @@ func (t csiIdx) write() ([]byte, error) {
 	err := csi.WriteTo(&buf, t.x)
 	return buf.Bytes(), err
 }
-func (t csiIdx) read(d []byte) (idx, error) {
-	x, err := csi.ReadFrom(bytes.NewReader(d))
+func (t csiIdx) read(d []byte) (idx, error) { return t.readFrom(bytes.NewReader(d)) }
+func (t csiIdx) readFrom(r io.Reader) (idx, error) {
+	x, err := csi.ReadFrom(r)
 	if err != nil || x == nil {
 		return nil, fmt.Errorf("ReadFrom: %v (index %v)", err, x)
 	}
@@ -435,7 +451,7 @@ func c04queries(c *Ctx, cas c04case, x idx, stage string, queries [][2]int, nref
 
 func c04(c *Ctx, roundtripOnly bool) {
 	if roundtripOnly {
-		c.Rule = "index states: the C04 generator (sorted sequences of <=3 records over boundary-biased interval alphabets on references 0..3 incl. references without records, placed-unmapped and unplaced records) for BAI, tabix (3 header settings) and CSI v1/v2 x aux {nil, 5 bytes} on geometries (14,5),(12,4),(1,2),(3,3). For every state: write -> read -> write gives identical bytes; NumRefs, per-reference mapped/unmapped counts and chunk spans and the unplaced count are equal on both sides and equal the true counts of the records added; every C04 query answers identically on the re-read index. Non-trivial: states with >=2 records or a reference without records."
+		c.Rule = "index states: the C04 generator (sorted sequences of <=3 records over boundary-biased interval alphabets on references 0..3 incl. references without records, placed-unmapped and unplaced records) for BAI, tabix (3 header settings) and CSI v1/v2 x aux {nil, 5 bytes} on geometries (14,5),(12,4),(1,2),(3,3). For every state: write -> read -> write gives identical bytes, also when the reader's source delivers one byte per Read call; NumRefs, per-reference mapped/unmapped counts and chunk spans and the unplaced count are equal on both sides and equal the true counts of the records added; every C04 query answers identically on the re-read index. Non-trivial: states with >=2 records or a reference without records."
 	} else {
 		c.Rule = "BAI, tabix and CSI (geometries (14,5),(14,6),(12,4),(1,2),(3,3)): every sorted sequence of 1-2 records over the full interval alphabet (starts at 0,1,T-1,T,T+1,2T, every bin-level boundary +-1, limit-2, limit-1; lengths 1,2,T-1,T,T+1,8T,largest level+1) and every sequence of 3 over a reduced alphabet, on reference patterns (0),(0,0),(0,1),(0,2: reference 1 empty),(0,0,0),(0,0,2),(0,1,1),(0,1,3), plus placed-unmapped and unplaced records; chunks are consecutive synthetic virtual offsets (same-block, block-end and next-block forms). For every state and every query interval ([p,p+1) and [p,p+T+1) for every alphabet position p, plus whole-range and tile-edge queries) on every reference: Add never fails or panics, and every record overlapping the query is covered by the union of the returned chunks (an error or empty answer implies no overlap); repeated after write->read and after MergeChunks with Identity, Adjacent, Squash, Compressor(0), Compressor(65536). Non-trivial: (state, query) pairs with at least one overlapping record."
 	}
@@ -457,6 +473,38 @@ func c04(c *Ctx, roundtripOnly bool) {
 		cfgs = append(cfgs, cfg{"csi", 14, 6})
 	}
 	var evals, nontriv, states int64
+	if roundtripOnly {
+		// read-back of written indexes runs in isolated worker processes: a reader that is
+		// thrown out of step (by a defect) asks for absurd amounts of memory, which a Go
+		// process cannot survive; here that is a violation attributed to the case
+		var cases []interface{}
+		var kinds []string
+		for _, g := range cfgs {
+			full := recAlphabet(g.ms, g.d, false)
+			red := recAlphabet(g.ms, g.d, true)
+			if !c.Thorough {
+				full = red
+			}
+			seqs := sequences(full, red, c.Thorough)
+			for i := range seqs {
+				cas := c04case{Kind: g.kind, MinShift: g.ms, Depth: g.d, Recs: seqs[i]}
+				cases = append(cases, cas)
+				kinds = append(kinds, g.kind)
+				if g.kind == "csi" && i%5 == 0 {
+					cas.CSIv1 = true
+					cases = append(cases, cas)
+					kinds = append(kinds, g.kind)
+				}
+			}
+			states += int64(len(seqs))
+			c.AddExtra(fmt.Sprintf("states_%s_%d_%d", g.kind, g.ms, g.d), int64(len(seqs)))
+			c.Sample(c04case{Kind: g.kind, MinShift: g.ms, Depth: g.d, Recs: seqs[len(seqs)/2]})
+		}
+		isoOOMIsViolation = true
+		runIsolated(c, "c15", cases, func(i int) string { return kinds[i] + ":roundtrip" }, 3072)
+		c.AddStates(states, states*2, states)
+		return
+	}
 	for _, g := range cfgs {
 		full := recAlphabet(g.ms, g.d, false)
 		red := recAlphabet(g.ms, g.d, true)
